@@ -29,10 +29,12 @@ func init() {
 		ID:        "C19",
 		Level:     "exploration",
 		Technique: "differential monitoring of the real libs/db backends (memdb, goleveldb, bolt, badger, prefix views) against a reference sorted byte-string map, compared after every operation",
-		Rule: "case = one generated history (direct and batched set/delete, batch write/commit/reset/abandon, close+reopen) on one backend configuration " +
+		Rule: "case = one generated history (direct and batched set/delete, up to two batches open at once, batch write/commit/reset/reuse/abandon, close+reopen) on one backend configuration " +
 			"(backend x direct|prefix view x shard count), keys from the quantifier's shapes (nil, empty, binary, shared prefixes, 0xFF-terminated, prefix boundaries), values non-empty; " +
 			"after EVERY operation: full forward scan == reference, Get/Has/Load/Exist (found + value) on touched, present and absent keys == reference, one random forward/reverse/prefix/IteratePrefix " +
 			"iterator with bounds from the key set +-1 byte == reference stream; for views the underlying store must equal outside keys + prefixed view content. " +
+			"Two special case kinds (1 in 40 each): big batches of 30k-120k operations (nothing visible while staged / after Reset / abandon, exact net effect after Write) and " +
+			"batch life-cycle scripts (ONE batch object staged, written, Reset and used again; run in a probe process so that a panic inside a backend goroutine is an observable outcome). " +
 			"Excluded as the property says: error values, empty values (never written); a batch is never re-written without Reset. " +
 			"non-trivial = the history committed >=1 batch that wrote one key more than once, compared >=1 non-empty reverse and >=1 non-empty prefix stream and (persistent backends) reopened >=1 time; distinct by hash of the op sequence",
 		Assumptions: []string{
@@ -154,6 +156,13 @@ type bop struct {
 	k, v []byte
 }
 
+type parkedBatch struct {
+	batch  dbm.Batch
+	pend   []bop
+	reused bool
+	name   string
+}
+
 type env struct {
 	c   *core.Ctx
 	r   *rng.R
@@ -170,8 +179,12 @@ type env struct {
 
 	pool [][]byte
 
+	// the current batch and, optionally, a second open batch that is parked (opBatchSwap exchanges them)
 	batch       dbm.Batch
 	pend        []bop
+	bname       string
+	other       *parkedBatch
+	batchSeq    int
 	batchReused bool // the open batch went through Reset and is being used again
 	lastOp      string
 	hist        []string
@@ -206,7 +219,12 @@ func (e *env) log(format string, a ...interface{}) {
 }
 
 func (e *env) witness(extra map[string]interface{}) map[string]interface{} {
-	w := map[string]interface{}{"config": e.cfg, "history": e.hist}
+	// the reference content at the moment of the observation: with the query it explains a read divergence
+	// without walking through the history
+	w := map[string]interface{}{"config": e.cfg, "history": e.hist, "reference_content": fmtStream(e.ref.forward(nil, nil), 80)}
+	if e.cfg.View && e.outside.len() > 0 {
+		w["underlying_keys_outside_view"] = fmtStream(e.outside.forward(nil, nil), 20)
+	}
 	for k, v := range extra {
 		w[k] = v
 	}
@@ -293,7 +311,7 @@ func (e *env) close() {
 		return
 	}
 	db := e.db
-	e.db, e.under, e.batch, e.pend = nil, nil, nil, nil
+	e.db, e.under, e.batch, e.pend, e.other = nil, nil, nil, nil, nil
 	e.guard("close", func() { db.Close() })
 }
 
@@ -1012,8 +1030,32 @@ func (e *env) opOutside() bool {
 	return e.verify(nil) && e.scanUnder()
 }
 
+// opBatchSwap parks the current batch and makes the parked one (if any) current: two batches can be
+// open at once; each must become visible on its own Write only, in the order the Writes happen.
+func (e *env) opBatchSwap() bool {
+	cur := e.other
+	if e.batch != nil {
+		e.other = &parkedBatch{e.batch, e.pend, e.batchReused, e.bname}
+	} else {
+		e.other = nil
+	}
+	if cur != nil {
+		e.batch, e.pend, e.batchReused, e.bname = cur.batch, cur.pend, cur.reused, cur.name
+		e.log("(continue with open batch %s, %d staged ops)", e.bname, len(e.pend))
+	} else {
+		e.batch, e.pend, e.batchReused, e.bname = nil, nil, false, ""
+		e.log("(current batch parked)")
+	}
+	if e.batch != nil && e.other != nil {
+		e.c.Count("two_batches_open", 1)
+	}
+	return true
+}
+
 func (e *env) opBatchBegin() bool {
-	e.log("b = NewBatch()")
+	e.batchSeq++
+	e.bname = fmt.Sprintf("b%d", e.batchSeq)
+	e.log("%s = NewBatch()", e.bname)
 	e.lastOp = "batch-new"
 	if !e.guard(e.lastOp, func() { e.batch = e.db.NewBatch() }) {
 		return false
@@ -1033,14 +1075,14 @@ func (e *env) opBatchStage() bool {
 	}
 	if r.Chance(0.68) {
 		v := e.genValue()
-		e.log("b.Set(%s, %s)", hx(k), hx(v))
+		e.log("%s.Set(%s, %s)", e.bname, hx(k), hx(v))
 		e.lastOp = "batch-stage-" + keyShape(k)
 		if !e.guard(e.lastOp, func() { e.batch.Set(k, v) }) {
 			return false
 		}
 		e.pend = append(e.pend, bop{false, k, v})
 	} else {
-		e.log("b.Delete(%s)", hx(k))
+		e.log("%s.Delete(%s)", e.bname, hx(k))
 		e.lastOp = "batch-stage-" + keyShape(k)
 		if !e.guard(e.lastOp, func() { e.batch.Delete(k) }) {
 			return false
@@ -1096,7 +1138,7 @@ func (e *env) opBatchEnd() bool {
 	case x < 60: // write
 		how := r.Intn(3)
 		name := []string{"Write", "Commit", "WriteSync"}[how]
-		e.log("b.%s() [%d staged ops]", name, len(e.pend))
+		e.log("%s.%s() [%d staged ops]", e.bname, name, len(e.pend))
 		e.lastOp = "batch-write" + e.pendShape()
 		if e.batchReused {
 			e.lastOp = "batch-reset-reuse-write" + e.pendShape()
@@ -1130,9 +1172,9 @@ func (e *env) opBatchEnd() bool {
 	case x < 82: // reset, keep the batch for reuse
 		keep := e.cfg.Reuse
 		if keep {
-			e.log("b.Reset() [%d staged ops dropped, batch kept for reuse]", len(e.pend))
+			e.log("%s.Reset() [%d staged ops dropped, batch kept for reuse]", e.bname, len(e.pend))
 		} else {
-			e.log("b.Reset() [%d staged ops dropped, batch then abandoned]", len(e.pend))
+			e.log("%s.Reset() [%d staged ops dropped, batch then abandoned]", e.bname, len(e.pend))
 		}
 		e.lastOp = "batch-reset"
 		if !e.guard(e.lastOp, func() { e.batch.Reset() }) {
@@ -1154,7 +1196,7 @@ func (e *env) opBatchEnd() bool {
 		}
 		return e.verify(touched)
 	default: // abandon
-		e.log("b abandoned [%d staged ops]", len(e.pend))
+		e.log("%s abandoned [%d staged ops]", e.bname, len(e.pend))
 		e.lastOp = "batch-abandon"
 		var touched [][]byte
 		for _, o := range e.pend {
@@ -1173,9 +1215,12 @@ func (e *env) opBatchEnd() bool {
 
 func (e *env) opReopen() bool {
 	pending := len(e.pend)
-	e.log("Close(); reopen [%d staged ops of an open batch are abandoned]", pending)
+	if e.other != nil {
+		pending += len(e.other.pend)
+	}
+	e.log("Close(); reopen [%d staged ops of open batches are abandoned]", pending)
 	e.lastOp = "reopen"
-	if e.batch != nil {
+	if e.batch != nil || e.other != nil {
 		e.c.Count("reopens_with_open_batch", 1)
 	}
 	e.close()
@@ -1246,6 +1291,8 @@ func run(c *core.Ctx) {
 			ok = e.opBatchStage()
 		case e.batch != nil && x < 52:
 			ok = e.opBatchEnd()
+		case (e.batch != nil || e.other != nil) && x >= 52 && x < 57:
+			ok = e.opBatchSwap()
 		case e.batch == nil && x < 14:
 			ok = e.opBatchBegin()
 		case x < 72:
@@ -1271,10 +1318,13 @@ func run(c *core.Ctx) {
 		}
 	}
 	// finish: settle an open batch, final reopen for persistent backends, final complete comparison
-	if e.batch != nil && len(e.pend) > 0 {
-		if !e.opBatchEnd() {
-			return
+	for i := 0; i < 2; i++ {
+		if e.batch != nil && len(e.pend) > 0 {
+			if !e.opBatchEnd() {
+				return
+			}
 		}
+		e.opBatchSwap()
 	}
 	if persistent(cfg.Backend) {
 		if !e.opReopen() {
